@@ -109,6 +109,22 @@ func checkC06(c *Ctx) {
 	if nSrc == 0 {
 		r.Ok("C06.sources", "all", "-", sprintf("no wall clock, randomness, environment, goroutine, channel or fused-float source in %d consensus-reachable functions", nFuncs))
 	}
+	// ---- global-state ------------------------------------------------------------------------
+	// State that lives in the process and not in the store is not rolled back with a discarded branch
+	// (CheckTx, simulations, the governance handler's cache context) and is empty after a restart, so a
+	// consensus result that reads it differs between nodes.  No code that consensus or query processing
+	// can reach may write memory rooted at a package-level variable of the module.
+	r.Min("C06.global-state", 1)
+	live := c.LiveReach()
+	nG, nRefs := 0, 0
+	for _, w := range c.globalWrites(live, &nRefs) {
+		nG++
+		r.Bad("C06.global-state", w.g.Name()+":"+fname(w.f), c.pos(w.in), "code reachable from block, message or query processing "+w.how+" the package-level variable "+w.g.Pkg.Pkg.Name()+"."+w.g.Name()+": process-local state survives discarded store branches and is lost on restart, so nodes can compute different results from the same blocks")
+	}
+	if nG == 0 {
+		r.Ok("C06.global-state", "all", "-", sprintf("no write to package-level state of the module in %d reachable functions (%d read references)", len(live), nRefs))
+	}
+
 	// float inventory
 	for _, f := range sortedFuncs(reach) {
 		if p.L.IsGenerated(f.Pos()) {
@@ -617,4 +633,114 @@ func constInt64(k *ssa.Const) (int64, bool) {
 		n = n*10 + int64(ch-'0')
 	}
 	return n, true
+}
+
+
+// moduleGlobal: a package-level variable declared in the repository's own packages.
+func moduleGlobal(g *ssa.Global) bool {
+	return g != nil && g.Pkg != nil && g.Pkg.Pkg != nil && strings.Contains(g.Pkg.Pkg.Path(), "MinterTeam/mhub2")
+}
+
+// globalRoot follows an address or reference back through field / index selections, loads and slices
+// to the module package-level variable it is rooted at.
+func globalRoot(v ssa.Value) *ssa.Global {
+	for i := 0; i < 12 && v != nil; i++ {
+		switch x := v.(type) {
+		case *ssa.Global:
+			if moduleGlobal(x) {
+				return x
+			}
+			return nil
+		case *ssa.FieldAddr:
+			v = x.X
+		case *ssa.IndexAddr:
+			v = x.X
+		case *ssa.UnOp:
+			if x.Op != token.MUL {
+				return nil
+			}
+			v = x.X
+		case *ssa.Slice:
+			v = x.X
+		case *ssa.ChangeType:
+			v = x.X
+		case *ssa.Field:
+			v = x.X
+		default:
+			return nil
+		}
+	}
+	return nil
+}
+
+
+type globalWrite struct {
+	f   *ssa.Function
+	in  ssa.Instruction
+	g   *ssa.Global
+	how string
+}
+
+// globalWrites lists the instructions in the given functions that write memory rooted at a package-level
+// variable of the module (assignments, map updates, sync.Map / atomic / Once / Pool mutators).
+func (c *Ctx) globalWrites(fns map[*ssa.Function]bool, nRefs *int) []globalWrite {
+	p := c.P
+	var out []globalWrite
+	for _, f := range sortedFuncs(fns) {
+		if p.L.IsGenerated(f.Pos()) || f.Name() == "init" || (f.Synthetic != "" && f.Parent() == nil) {
+			continue
+		}
+		ana.Instrs(f, func(in ssa.Instruction) {
+			flag := func(g *ssa.Global, how string) { out = append(out, globalWrite{f, in, g, how}) }
+			if nRefs != nil {
+				for _, op := range in.Operands(nil) {
+					if g, ok := (*op).(*ssa.Global); ok && moduleGlobal(g) {
+						*nRefs++
+					}
+				}
+			}
+			switch x := in.(type) {
+			case *ssa.Store:
+				if g := globalRoot(x.Addr); g != nil {
+					flag(g, "assigns to (memory reachable from)")
+				}
+			case *ssa.MapUpdate:
+				if g := globalRoot(x.Map); g != nil {
+					flag(g, "updates the map held in")
+				}
+			case ssa.CallInstruction:
+				cc := x.Common()
+				d, ok := ana.Describe(cc)
+				if !ok {
+					return
+				}
+				args := cc.Args
+				if cc.IsInvoke() {
+					args = append([]ssa.Value{cc.Value}, args...)
+				}
+				if len(args) == 0 {
+					return
+				}
+				g := globalRoot(args[0])
+				if g == nil {
+					return
+				}
+				mut := false
+				switch {
+				case d.Pkg == "sync" && d.Recv == "Map" && (d.Name == "Store" || d.Name == "LoadOrStore" || d.Name == "LoadAndDelete" || d.Name == "Delete" || d.Name == "Swap" || d.Name == "CompareAndSwap" || d.Name == "CompareAndDelete"):
+					mut = true
+				case d.Pkg == "sync" && d.Recv == "Once" && d.Name == "Do":
+					mut = true
+				case d.Pkg == "sync/atomic" && (strings.HasPrefix(d.Name, "Store") || strings.HasPrefix(d.Name, "Add") || strings.HasPrefix(d.Name, "Swap") || strings.HasPrefix(d.Name, "CompareAndSwap")):
+					mut = true
+				case d.Pkg == "sync" && d.Recv == "Pool" && d.Name == "Put":
+					mut = true
+				}
+				if mut {
+					flag(g, "mutates, through "+d.Recv+"."+d.Name+",")
+				}
+			}
+		})
+	}
+	return out
 }
